@@ -42,3 +42,13 @@ Theorem C17_stop_leaves_no_connection : forall md ma s,
   ConnLimit.obs_cl (ConnLimit.cstep md ma s ConnLimit.CStop) = [0; 0; 0; 0; 0].
 Proof. exact ConnLimitProofs.stop_clears. Qed.
 Print Assumptions C17_stop_leaves_no_connection.
+
+(* outstanding block requests per peer (piecedownloader, kind 102): for every history of
+   RequestBlocks(q) with q <= Q, received blocks (valid, duplicate, unrequested, garbage), chokes and
+   rejects, at most Q requests are in flight *)
+From RainV Require Import PieceDl PieceDlProofs.
+Theorem C17_request_pipeline_bounded : forall Q blocks plen af fast ops, 0 <= Q ->
+  Forall (fun o => match o with PReq q => q <= Q | _ => True end) ops ->
+  zlen (pd_pending (fold_left pd_apply ops (pdl_new blocks plen af fast))) <= Q.
+Proof. exact pipeline_bounded. Qed.
+Print Assumptions C17_request_pipeline_bounded.
